@@ -315,6 +315,7 @@ pub fn run(ctx: &Ctx) {
     let bound = ctx.tier.pick(2, 3);
     let max_exec = ctx.tier.pick(3_000, 60_000);
     // 1. order exploration
+    let t_start = std::time::Instant::now();
     let res = par_for(
         cases.len() as u64,
         ctx.threads,
@@ -387,6 +388,7 @@ pub fn run(ctx: &Ctx) {
     if !res.complete {
         ctx.set("cap", json!(format!("wall budget: {} of {} cases explored", res.processed, cases.len())));
     }
+    let t_explored = t_start.elapsed().as_secs_f64();
     // 2. repetition on the shipped library (hooks off), two processes per chunk
     let fresh = ctx.tier.pick(5, 16);
     let mut validated = 0u64;
@@ -439,6 +441,7 @@ pub fn run(ctx: &Ctx) {
         }
         (Err(e), _) | (_, Err(e)) => ctx.machinery_error(format!("hooks-off helper: {}", e)),
     }
+    let t_repeated = t_start.elapsed().as_secs_f64();
     // 2b. a process of its own for some cases (state that the first call of a process sets up for all
     // later ones is invisible when thousands of cases share a helper process): every 97th case and the
     // cases whose names are words of the derive lists used by the observation
@@ -480,6 +483,7 @@ pub fn run(ctx: &Ctx) {
         },
     );
     ctx.set("cases_run_in_a_process_of_their_own", json!(solo_res.accs.iter().sum::<u64>()));
+    ctx.set("phase_wall_s", json!({"order_exploration": (t_explored * 10.0).round() / 10.0, "free_running_repetition": ((t_repeated - t_explored) * 10.0).round() / 10.0, "own_process_runs": ((t_start.elapsed().as_secs_f64() - t_repeated) * 10.0).round() / 10.0}));
     ctx.set("traces_validated_against_impl", json!(validated));
     ctx.set("free_running_fresh_threads_per_case", json!(fresh + 1));
     ctx.set(
